@@ -21,6 +21,7 @@ package main
 
 import (
 	"fmt"
+	"strings"
 
 	"github.com/ElrondNetwork/elrond-go/core"
 	"github.com/ElrondNetwork/elrond-go/core/throttler"
@@ -120,13 +121,21 @@ func main() {
 				}
 			}
 		}
+		// multi-data interceptor driver: every unordered pair of message kinds
+		for _, max := range []int32{1, 2} {
+			for i := range multiMsgs {
+				for j := i; j < len(multiMsgs); j++ {
+					scs = append(scs, scenario{Driver: "multi", Threads: 2, Rounds: 1, Max: max, Kinds: multiMsgs[i] + "|" + multiMsgs[j]})
+				}
+			}
+		}
 		total := int64(0)
 		for _, sc := range scs {
 			sc := sc
 			st := mc.Explore(c, -1, 1, func(ch *mc.Chooser) { runOne(c, sc, ch) })
 			total += st.Executions
-			if sc.Driver == "interceptor" {
-				c.Count(fmt.Sprintf("schedules[interceptor T=%d max=%d]", sc.Threads, sc.Max), st.Executions)
+			if sc.Driver == "interceptor" || sc.Driver == "multi" {
+				c.Count(fmt.Sprintf("schedules[%s T=%d max=%d]", sc.Driver, sc.Threads, sc.Max), st.Executions)
 			} else {
 				c.Count(fmt.Sprintf("schedules[%s T=%d R=%d max=%d bad=%v]", sc.Driver, sc.Threads, sc.Rounds, sc.Max, sc.BadMsg), st.Executions)
 			}
@@ -168,10 +177,24 @@ func runOne(c *mc.Ctx, sc scenario, ch *mc.Chooser) {
 			c.Fatal("interceptor: %v", err)
 		}
 	}
+	var mcp *interceptors.MultiDataInterceptor
+	var mkinds []string
+	if sc.Driver == "multi" {
+		var err error
+		mcp, err = newMultiInterceptor(o, work)
+		if err != nil {
+			c.Fatal("multi interceptor: %v", err)
+		}
+		mkinds = strings.Split(sc.Kinds, "|")
+	}
 	for i := range bodies {
 		i := i
 		bodies[i] = func() {
 			for r := 0; r < sc.Rounds; r++ {
+				if sc.Driver == "multi" {
+					_ = mcp.ProcessReceivedMessage(multiMsg(mkinds[i]), "connected")
+					continue
+				}
 				if sc.Driver == "interceptor" {
 					_ = icp.ProcessReceivedMessage(interceptorMsg(sc.Kinds[i]), "connected")
 					continue
@@ -238,6 +261,10 @@ func judge(c *mc.Ctx, sc scenario, o *obs, ch *mc.Chooser) {
 	}
 	lastCan := map[int]int{} // thread -> index of its last can+ event
 	for i, e := range o.log {
+		if e.After < 0 {
+			c.Violation("end-processing-without-matching-start", detail(fmt.Sprintf("event %d: %d tasks between Start and End", i, e.After)), ch.Choices())
+			return
+		}
 		if int32(e.After) != e.Ctr {
 			c.Violation("counter-integrity", detail(fmt.Sprintf("event %d: counter %d but %d tasks between Start and End", i, e.Ctr, e.After)), ch.Choices())
 			return
